@@ -332,7 +332,7 @@ theorem eatCmp_true_plain (eq : Char → Char → Bool) (all pat : Str) (hp : Pa
 /-- `eat` moves text between the queue and the stash, or consumes a matched keyword (which holds no
 line break): the breaks ahead in stash ++ queue do not change -/
 theorem eat_phi (m : Mach) (inp pat : Str) (eq : Char → Char → Bool)
-    (hr : m.reconsume = false) (hok : EatOk m) (hat : m.atEof = false)
+    (hr : m.reconsume = false) (hok : EatOk m)
     (hp : PatOk eq pat) (hne : pat ≠ [])
     (b : Option Bool) (m1 : Mach) (i1 : Str) (h : eat m inp pat eq = (b, m1, i1)) :
     m1.line = m.line ∧ m1.reconsume = false ∧ EatOk m1 ∧
@@ -340,20 +340,28 @@ theorem eat_phi (m : Mach) (inp pat : Str) (eq : Char → Char → Bool)
     (b ≠ none → m1.tempBuf = []) ∧ (b = none → ∀ c ∈ m1.tempBuf, isBrk c = false) := by
   rw [eat_eq_core] at h
   obtain ⟨f1, f2, f3, f4, f5⟩ := eatSkipLf_phi m inp hr hok
-  have hat' : (eatSkipLf m inp).1.atEof = false := by simp [hat]
   generalize hmi : (eatSkipLf m inp).1 = mi at *
   generalize hii : (eatSkipLf m inp).2 = ii at *
   unfold eatCore at h
   cases hc : eatCmp eq (mi.tempBuf ++ ii) pat with
   | none =>
-    simp only [hc, hat', Bool.false_eq_true, ↓reduceIte, Prod.mk.injEq] at h
-    obtain ⟨hb, hm1, hi1⟩ := h
-    subst hb hm1 hi1
-    refine ⟨by simpa using f2, by simpa using f3, ?_, by simpa using f4, by simp, fun _ => ?_⟩
-    · intro hil
-      have := f5 (by simpa using hil)
-      simp [f1, this.1, this.2.2]
-    · simpa using eatCmp_none_plain eq _ pat hp hc
+    cases hae : mi.atEof with
+    | true =>
+      -- at EOF the look-ahead gives up: everything goes back to the queue
+      simp only [hc, hae, ↓reduceIte, Prod.mk.injEq] at h
+      obtain ⟨hb, hm1, hi1⟩ := h
+      subst hb hm1 hi1
+      refine ⟨by simpa using f2, by simpa using f3, fun _ => by simp, ?_, fun _ => by simp, fun hx => by simp at hx⟩
+      simpa using f4
+    | false =>
+      simp only [hc, hae, Bool.false_eq_true, ↓reduceIte, Prod.mk.injEq] at h
+      obtain ⟨hb, hm1, hi1⟩ := h
+      subst hb hm1 hi1
+      refine ⟨by simpa using f2, by simpa using f3, ?_, by simpa using f4, by simp, fun _ => ?_⟩
+      · intro hil
+        have := f5 (by simpa using hil)
+        simp [f1, this.1, this.2.2]
+      · simpa using eatCmp_none_plain eq _ pat hp hc
   | some bb =>
     have hall : mi.tempBuf ++ ii ≠ [] := by
       intro hnil
@@ -730,9 +738,8 @@ theorem getChar_ri (o : Opts) (m m1 : Mach) (inp i1 : Str) (c : Char)
 
 /-- the accounting invariant of the machine at step boundaries -/
 structure LInv (m : Mach) : Prop where
-  good : Good m
   safe : Safe m
-  notEof : m.atEof = false
+  eatOk : (m.state = .markupDeclarationOpen ∨ m.state = .afterDoctypeName) → EatOk m
   nr : isRaw m.state = false → m.state ≠ .markupDeclarationOpen → m.state ≠ .afterDoctypeName → m.tempBuf = []
   peekNoRecon : (m.state = .beforeAttributeValue ∨ m.state = .markupDeclarationOpen ∨ m.state = .afterDoctypeName) →
     m.reconsume = false
@@ -793,11 +800,10 @@ theorem stash_congr {m m' : Mach} (h1 : m'.state = m.state) (h2 : m'.tempBuf = m
   unfold stash; rw [h1, h2, h3]
 
 /-- clearing a pending-LF flag keeps the invariant -/
-theorem LInv.setIgnoreLf_false {m : Mach} (hi : LInv m) (hg : Good (m.setIgnoreLf false))
+theorem LInv.setIgnoreLf_false {m : Mach} (hi : LInv m)
     (hs : Safe (m.setIgnoreLf false)) : LInv (m.setIgnoreLf false) where
-  good := hg
   safe := hs
-  notEof := by simpa using hi.notEof
+  eatOk := fun _ hil => by simp at hil
   nr := by simpa using hi.nr
   peekNoRecon := by simpa using hi.peekNoRecon
   ri := by intro _ h; simp at h
@@ -815,7 +821,7 @@ theorem phi_eq {m m' : Mach} {i i' : Str} (hs : stash m = []) (hs' : stash m' = 
 theorem lines_getChar (o : Opts) (pol : Pol) (m : Mach) (inp : Str) (hi : LInv m)
     (hcr : m.charRef = none) (hrk : readKind m.state = .getChar) (m' : Mach) (i' : Str)
     (h : (contChar o pol (getChar o m inp)).pair? = some (m', i'))
-    (hg' : Good m') (hs' : Safe m') (he' : m'.atEof = false) :
+    (hs' : Safe m') :
     LInv m' ∧ Phi m' i' = Phi m inp := by
   have hf := readKind_getChar_facts hrk
   have hst : stash m = [] := stash_nil_of hcr (by
@@ -836,7 +842,7 @@ theorem lines_getChar (o : Opts) (pol : Pol) (m : Mach) (inp : Str) (hi : LInv m
       subst h1 h2
       rcases g3 with ⟨_, g4⟩ | ⟨_, _, g4⟩ <;> subst g4
       · exact ⟨hi, phi_eq hst hst hphi⟩
-      · exact ⟨hi.setIgnoreLf_false hg' hs',
+      · exact ⟨hi.setIgnoreLf_false hs',
           phi_eq hst (by rw [stash_congr (m := m) (by simp) (by simp) (by simp)]; exact hst) hphi⟩
     | some c =>
       obtain ⟨f1, f2, f3, f4, _⟩ := getChar_fields o m m1 inp i1 c hgc
@@ -846,7 +852,8 @@ theorem lines_getChar (o : Opts) (pol : Pol) (m : Mach) (inp : Str) (hi : LInv m
       subst h1 h2
       obtain ⟨a1, a2, a3, a4, a5, a6, a7⟩ := afterChar_lines o pol m1 c (by rw [f4, hcr])
         (by intro hraw; rw [f2]; rw [f1] at hraw; exact hi.nr hraw hf.1 hf.2.2) f3 r1 r2
-      refine ⟨⟨hg', hs', he', fun hraw _ _ => a1 hraw, a2, a3, by rw [a5]; intro c hc; exact absurd hc List.not_mem_nil,
+      refine ⟨⟨hs', fun hx _ => a1 (by rcases hx with hx | hx <;> rw [hx] <;> rfl), fun hraw _ _ => a1 hraw, a2, a3,
+        by rw [a5]; intro c hc; exact absurd hc List.not_mem_nil,
         by intro cr hcr'; rw [a4] at hcr'; simp at hcr'⟩, phi_eq hst a5 ?_⟩
       rw [a6, a7]; exact hphi
 
@@ -972,7 +979,7 @@ theorem lines_set (o : Opts) (pol : Pol) (m : Mach) (inp : Str) (hi : LInv m)
     (hnone : rd.1 = none → rd.2.2 = [] ∧ (rd.2.1 = m ∨ rd.2.1 = m.setIgnoreLf false))
     (hsome : ∀ sr, rd.1 = some sr → ReadOk m rd.2.1 sr ∧ (rd.2.1.ignoreLf = true → sr = .fromSet '\n'))
     (m' : Mach) (i' : Str) (h : (contSet o pol rd).pair? = some (m', i'))
-    (hg' : Good m') (hs' : Safe m') (he' : m'.atEof = false) :
+    (hs' : Safe m') :
     LInv m' ∧ Phi m' i' = Phi m inp := by
   have hsf := readKind_state_facts hk
   have hst : stash m = [] := stash_nil_of hcr (by
@@ -989,7 +996,7 @@ theorem lines_set (o : Opts) (pol : Pol) (m : Mach) (inp : Str) (hi : LInv m)
     subst h1 h2 g1
     rcases g2 with g2 | g2 <;> subst g2
     · exact ⟨hi, phi_eq hst hst hphi⟩
-    · exact ⟨hi.setIgnoreLf_false hg' hs',
+    · exact ⟨hi.setIgnoreLf_false hs',
         phi_eq hst (by rw [stash_congr (m := m) (by simp) (by simp) (by simp)]; exact hst) hphi⟩
   | some sr =>
     obtain ⟨⟨f1, f2, f3, f4, _, _⟩, hri⟩ := hsome sr rfl
@@ -999,7 +1006,8 @@ theorem lines_set (o : Opts) (pol : Pol) (m : Mach) (inp : Str) (hi : LInv m)
     obtain ⟨a1, a2, a3, a4, a5, a6, a7⟩ := afterSet_lines o pol m1 sr (by rw [f4, hcr]) (by rw [f1]; exact hk)
       (by intro hraw; rw [f2]; rw [f1] at hraw; exact hi.nr hraw hsf.1 hsf.2.1) f3
       (by intro hil hx; have := hri hil; rw [this] at hx; simp at hx)
-    refine ⟨⟨hg', hs', he', fun hraw _ _ => a1 hraw, ?_, by intro hx; rw [a3] at hx; simp at hx,
+    refine ⟨⟨hs', fun hx _ => a1 (by rcases hx with hx | hx <;> rw [hx] <;> rfl), fun hraw _ _ => a1 hraw, ?_,
+      by intro hx; rw [a3] at hx; simp at hx,
       by rw [a5]; intro c hc; exact absurd hc List.not_mem_nil, ?_⟩, phi_eq hst a5 ?_⟩
     · intro hx
       rcases hx with hx | hx | hx
@@ -1032,7 +1040,7 @@ theorem processCharRef_line (m : Mach) (chars : Str) : (processCharRef m chars).
 theorem lines_charRef (o : Opts) (m : Mach) (inp : Str) (cr : CharRefSt) (hi : LInv m)
     (hcr : m.charRef = some cr) (m' : Mach) (i' : Str)
     (h : (stepCharRef o m inp cr).pair? = some (m', i'))
-    (hg' : Good m') (hs' : Safe m') (he' : m'.atEof = false) :
+    (hs' : Safe m') :
     LInv m' ∧ Phi m' i' = Phi m inp := by
   obtain ⟨c1, c2, c3⟩ := hi.cr cr hcr
   have hsafe := hi.safe.crRegs cr hcr
@@ -1053,10 +1061,14 @@ theorem lines_charRef (o : Opts) (m : Mach) (inp : Str) (cr : CharRefSt) (hi : L
     have mk : ∀ (mm : Mach), mm.state = m.state → mm.tempBuf = m.tempBuf → mm.reconsume = false →
         (∀ c ∈ stash mm, isBrk c = false) →
         (∀ cr, mm.charRef = some cr → mm.ignoreLf = false ∧ mm.reconsume = false ∧ CRLines cr) →
-        Good mm → Safe mm → mm.atEof = false → LInv mm := by
-      intro mm e1 e2 e3 e4 e5 g s a
-      refine ⟨g, s, a, ?_, fun _ => e3, by intro hx; rw [e3] at hx; simp at hx, e4, e5⟩
-      rw [e1, e2]; exact hi.nr
+        Safe mm → LInv mm := by
+      intro mm e1 e2 e3 e4 e5 s
+      refine ⟨s, ?_, ?_, fun _ => e3, by intro hx; rw [e3] at hx; simp at hx, e4, e5⟩
+      · intro hx; rw [e1] at hx
+        rcases hx with hx | hx
+        · exact absurd hx hne.1
+        · exact absurd hx hne.2.1
+      · rw [e1, e2]; exact hi.nr
     cases st with
     | stuck =>
       simp only [R.pair?, Option.some.injEq, Prod.mk.injEq] at h
@@ -1068,7 +1080,7 @@ theorem lines_charRef (o : Opts) (m : Mach) (inp : Str) (cr : CharRefSt) (hi : L
           intro cr' hcr'
           simp only [Mach.setCharRef, Option.some.injEq] at hcr'
           subst hcr'
-          exact ⟨by simpa using k2, by simpa using k3, k4.1⟩) hg' hs' he', ?_⟩
+          exact ⟨by simpa using k2, by simpa using k3, k4.1⟩) hs', ?_⟩
       rw [hphi0]
       unfold Phi stash
       simp only [Mach.setCharRef]
@@ -1086,7 +1098,7 @@ theorem lines_charRef (o : Opts) (m : Mach) (inp : Str) (cr : CharRefSt) (hi : L
           intro cr' hcr'
           simp only [Mach.setCharRef, Option.some.injEq] at hcr'
           subst hcr'
-          exact ⟨by simpa using k2, by simpa using k3, k4.1⟩) hg' hs' he', ?_⟩
+          exact ⟨by simpa using k2, by simpa using k3, k4.1⟩) hs', ?_⟩
       rw [hphi0]
       unfold Phi stash
       simp only [Mach.setCharRef]
@@ -1109,7 +1121,7 @@ theorem lines_charRef (o : Opts) (m : Mach) (inp : Str) (cr : CharRefSt) (hi : L
         · exact absurd hx hne.2.1
       refine ⟨mk _ (by simp [hp.1, hw.1]) (by simp [hp.2.1, hw.2.1]) (by simp [hp.2.2.2.1, k3])
         (by rw [hst']; intro c hc; exact absurd hc List.not_mem_nil)
-        (by intro cr' hcr'; simp at hcr') hg' hs' he', ?_⟩
+        (by intro cr' hcr'; simp at hcr') hs', ?_⟩
       rw [hphi0]
       unfold Phi
       rw [hst']
@@ -1230,16 +1242,15 @@ structure EatSt (s : State) (K : Nat) (m : Mach) (i : Str) : Prop where
   cr : m.charRef = none
   nrec : m.reconsume = false
   ok : EatOk m
-  ne : m.atEof = false
   phi : m.line + brk m.ignoreLf (m.tempBuf ++ i) = K
 
 theorem eat_stage {s : State} {K : Nat} {m : Mach} {i : Str} (h0 : EatSt s K m i)
     (pat : Str) (eq : Char → Char → Bool) (hp : PatOk eq pat) (hne : pat ≠ [])
     (b : Option Bool) (m1 : Mach) (i1 : Str) (h : eat m i pat eq = (b, m1, i1)) :
     EatSt s K m1 i1 ∧ (b ≠ none → m1.tempBuf = []) ∧ (b = none → ∀ c ∈ m1.tempBuf, isBrk c = false) := by
-  obtain ⟨p1, p2, p3, p4, p5, p6⟩ := eat_phi m i pat eq h0.nrec h0.ok h0.ne hp hne b m1 i1 h
+  obtain ⟨p1, p2, p3, p4, p5, p6⟩ := eat_phi m i pat eq h0.nrec h0.ok hp hne b m1 i1 h
   obtain ⟨f1, f2, f3⟩ := eat_fields m m1 i i1 pat eq b h
-  exact ⟨⟨by rw [f1, h0.st], by rw [f2, h0.cr], p2, p3, by rw [f3, h0.ne], by rw [p1, p4]; exact h0.phi⟩, p5, p6⟩
+  exact ⟨⟨by rw [f1, h0.st], by rw [f2, h0.cr], p2, p3, by rw [p1, p4]; exact h0.phi⟩, p5, p6⟩
 
 /-- a terminal result of a look-ahead state: machine `mm` derived from the last `eat`'s machine by
 operations that touch neither the line registers nor `temp_buf` (or clear it) -/
@@ -1248,9 +1259,9 @@ theorem eat_exit {s : State} {K : Nat} {m1 : Mach} {i1 : Str} (h1 : EatSt s K m1
     (e4 : mm.reconsume = false) (e5 : mm.charRef = none)
     (e6 : mm.state ≠ .markupDeclarationOpen) (e7 : mm.state ≠ .afterDoctypeName) :
     mm.reconsume = false ∧ mm.charRef = none ∧ (∀ c ∈ stash mm, isBrk c = false) ∧
-    Phi mm i1 = K ∧ (mm.state ≠ s → mm.tempBuf = []) := by
+    Phi mm i1 = K ∧ (mm.state ≠ s → mm.tempBuf = []) ∧ EatOk mm := by
   have hst := stash_plain e5 e6 e7
-  refine ⟨e4, e5, by rw [hst]; intro c hc; exact absurd hc List.not_mem_nil, ?_, fun _ => e3⟩
+  refine ⟨e4, e5, by rw [hst]; intro c hc; exact absurd hc List.not_mem_nil, ?_, fun _ => e3, fun _ => e3⟩
   unfold Phi
   rw [hst, e1, e2]
   have := h1.phi
@@ -1261,16 +1272,16 @@ theorem eat_suspend {s : State} {K : Nat} {m1 : Mach} {i1 : Str} (h1 : EatSt s K
     (hs : s = .markupDeclarationOpen ∨ s = .afterDoctypeName)
     (hpl : ∀ c ∈ m1.tempBuf, isBrk c = false) :
     m1.reconsume = false ∧ m1.charRef = none ∧ (∀ c ∈ stash m1, isBrk c = false) ∧
-    Phi m1 i1 = K ∧ (m1.state ≠ s → m1.tempBuf = []) := by
+    Phi m1 i1 = K ∧ (m1.state ≠ s → m1.tempBuf = []) ∧ EatOk m1 := by
   have hst : stash m1 = m1.tempBuf := stash_eat h1.cr (by rw [h1.st]; exact hs)
-  refine ⟨h1.nrec, h1.cr, by rw [hst]; exact hpl, ?_, fun hx => absurd h1.st hx⟩
+  refine ⟨h1.nrec, h1.cr, by rw [hst]; exact hpl, ?_, fun hx => absurd h1.st hx, h1.ok⟩
   unfold Phi; rw [hst]; exact h1.phi
 
 theorem stepMdo_lines (o : Opts) (pol : Pol) (m : Mach) (inp : Str) (K : Nat)
     (h0 : EatSt .markupDeclarationOpen K m inp) (m' : Mach) (i' : Str)
     (h : (stepMdo o pol m inp).pair? = some (m', i')) :
     m'.reconsume = false ∧ m'.charRef = none ∧ (∀ c ∈ stash m', isBrk c = false) ∧
-    Phi m' i' = K ∧ (m'.state ≠ .markupDeclarationOpen → m'.tempBuf = []) := by
+    Phi m' i' = K ∧ (m'.state ≠ .markupDeclarationOpen → m'.tempBuf = []) ∧ EatOk m' := by
   obtain ⟨pk1, pk2, pk3, _, _⟩ := patOk_kw
   obtain ⟨n1, n2, n3, _, _⟩ := kw_ne
   unfold stepMdo at h
@@ -1342,19 +1353,21 @@ theorem stepAdn_lines (o : Opts) (pol : Pol) (m : Mach) (inp : Str) (K : Nat)
       m'.reconsume = false) ∧
     (m'.reconsume = true → m'.ignoreLf = true → m'.currentChar = '\n') ∧
     m'.charRef = none ∧ (∀ c ∈ stash m', isBrk c = false) ∧
-    Phi m' i' = K ∧ (isRaw m'.state = false → m'.state ≠ .afterDoctypeName → m'.tempBuf = []) := by
+    Phi m' i' = K ∧ (isRaw m'.state = false → m'.state ≠ .afterDoctypeName → m'.tempBuf = []) ∧
+    ((m'.state = .markupDeclarationOpen ∨ m'.state = .afterDoctypeName) → EatOk m') := by
   obtain ⟨_, _, _, pk4, pk5⟩ := patOk_kw
   obtain ⟨_, _, _, n4, n5⟩ := kw_ne
   -- results in which `reconsume` is known to be clear
   have pack : ∀ mm ii, (mm.reconsume = false ∧ mm.charRef = none ∧ (∀ c ∈ stash mm, isBrk c = false) ∧
-      Phi mm ii = K ∧ (mm.state ≠ .afterDoctypeName → mm.tempBuf = [])) →
+      Phi mm ii = K ∧ (mm.state ≠ .afterDoctypeName → mm.tempBuf = []) ∧ EatOk mm) →
       ((mm.state = .beforeAttributeValue ∨ mm.state = .markupDeclarationOpen ∨ mm.state = .afterDoctypeName) →
         mm.reconsume = false) ∧
       (mm.reconsume = true → mm.ignoreLf = true → mm.currentChar = '\n') ∧
       mm.charRef = none ∧ (∀ c ∈ stash mm, isBrk c = false) ∧
-      Phi mm ii = K ∧ (isRaw mm.state = false → mm.state ≠ .afterDoctypeName → mm.tempBuf = []) := by
-    intro mm ii ⟨q1, q2, q3, q4, q5⟩
-    exact ⟨fun _ => q1, by intro hx; rw [q1] at hx; simp at hx, q2, q3, q4, fun _ hx => q5 hx⟩
+      Phi mm ii = K ∧ (isRaw mm.state = false → mm.state ≠ .afterDoctypeName → mm.tempBuf = []) ∧
+      ((mm.state = .markupDeclarationOpen ∨ mm.state = .afterDoctypeName) → EatOk mm) := by
+    intro mm ii ⟨q1, q2, q3, q4, q5, q6⟩
+    exact ⟨fun _ => q1, by intro hx; rw [q1] at hx; simp at hx, q2, q3, q4, fun _ hx => q5 hx, fun _ => q6⟩
   unfold stepAdn at h
   cases h1 : eat m inp kwPublic eqCi with
   | mk b1 r1 =>
@@ -1414,7 +1427,7 @@ theorem stepAdn_lines (o : Opts) (pol : Pol) (m : Mach) (inp : Str) (K : Nat)
                     · exact ⟨by simp [s2.st], by simp [ht2], by simp [s2.nrec], by simp [s2.cr]⟩
                   have hst : stash m3 = [] := by rw [stash_eat hf.2.2.2 (Or.inr hf.1)]; exact hf.2.1
                   refine pack _ _ ⟨hf.2.2.1, hf.2.2.2, by rw [hst]; intro c hc; exact absurd hc List.not_mem_nil, ?_,
-                    fun hx => absurd hf.1 hx⟩
+                    fun hx => absurd hf.1 hx, fun _ => hf.2.1⟩
                   unfold Phi; rw [hst]; simp only [List.nil_append]; rw [hphi, hK]
                 | some c =>
                   obtain ⟨f1, f2, f3, f4, _⟩ := getChar_fields o m2 m3 i2 i3 c hg
@@ -1423,7 +1436,8 @@ theorem stepAdn_lines (o : Opts) (pol : Pol) (m : Mach) (inp : Str) (K : Nat)
                   subst e1 e2
                   obtain ⟨a1, a2, a3, a4, a5, a6, a7⟩ := afterChar_lines o pol m3 c (by rw [f4, s2.cr])
                     (by intro _; rw [f2, ht2]) f3 r1 r2
-                  refine ⟨a2, a3, a4, by rw [a5]; intro c hc; exact absurd hc List.not_mem_nil, ?_, fun hraw _ => a1 hraw⟩
+                  refine ⟨a2, a3, a4, by rw [a5]; intro c hc; exact absurd hc List.not_mem_nil, ?_, fun hraw _ => a1 hraw,
+                    fun hx _ => a1 (by rcases hx with hx | hx <;> rw [hx] <;> rfl)⟩
                   unfold Phi; rw [a5]; simp only [List.nil_append]; rw [a6, a7, hphi, hK]
 
 
@@ -1432,22 +1446,20 @@ theorem stepAdn_lines (o : Opts) (pol : Pol) (m : Mach) (inp : Str) (K : Nat)
 theorem step_lines (o : Opts) (pol : Pol) (m : Mach) (inp : Str) (hi : LInv m) (m' : Mach) (i' : Str)
     (h : (step o pol m inp).pair? = some (m', i')) : LInv m' ∧ Phi m' i' = Phi m inp := by
   have hmach := pair_mach _ _ _ h
-  obtain ⟨hg', he0⟩ := step_good o pol m inp hi.good hi.notEof m' hmach
   have hs' := (step_safe o pol m inp hi.safe).2 m' hmach
-  have he' : m'.atEof = false := by rw [he0, hi.notEof]
   cases hcr : m.charRef with
   | some cr =>
     rw [step_kind_charRef o pol m inp cr hcr] at h
-    exact lines_charRef o m inp cr hi hcr m' i' h hg' hs' he'
+    exact lines_charRef o m inp cr hi hcr m' i' h hs'
   | none =>
     cases hrk : readKind m.state with
     | getChar =>
       rw [step_getChar o pol m inp hcr hrk] at h
-      exact lines_getChar o pol m inp hi hcr hrk m' i' h hg' hs' he'
+      exact lines_getChar o pol m inp hi hcr hrk m' i' h hs'
     | popExcept =>
       rw [step_popExcept o pol m inp hcr hrk] at h
       refine lines_set o pol m inp hi hcr (Or.inl hrk) _ (popExceptFrom_phi o _ m inp (setOf_crlf _ (Or.inl hrk)))
-        ?_ ?_ m' i' h hg' hs' he'
+        ?_ ?_ m' i' h hs'
       · intro hn
         cases hp : popExceptFrom o (setOf m.state) m inp with
         | mk a b =>
@@ -1463,7 +1475,7 @@ theorem step_lines (o : Opts) (pol : Pol) (m : Mach) (inp : Str) (hi : LInv m) (
           exact ⟨popExceptFrom_fields o _ m m1 inp i1 sr hp, popExceptFrom_ri o _ m m1 inp i1 sr hi.ri hp⟩
     | dataSimd =>
       rw [step_dataSimd o pol m inp hcr hrk] at h
-      refine lines_set o pol m inp hi hcr (Or.inr hrk) _ (readData_phi o m inp) ?_ ?_ m' i' h hg' hs' he'
+      refine lines_set o pol m inp hi hcr (Or.inr hrk) _ (readData_phi o m inp) ?_ ?_ m' i' h hs'
       · intro hn
         cases hp : readData o m inp with
         | mk a b =>
@@ -1488,28 +1500,27 @@ theorem step_lines (o : Opts) (pol : Pol) (m : Mach) (inp : Str) (hi : LInv m) (
       have htb' : m'.tempBuf = [] := by rw [b1, htb]
       have hs0 : stash m = [] := stash_nil_of hcr (fun _ => htb)
       have hs1 : stash m' = [] := stash_nil_of hcr' (fun _ => htb')
-      exact ⟨⟨hg', hs', he', fun _ _ _ => htb', fun _ => b2, by intro hx; rw [b2] at hx; simp at hx,
+      exact ⟨⟨hs', fun _ _ => htb', fun _ _ _ => htb', fun _ => b2, by intro hx; rw [b2] at hx; simp at hx,
         by rw [hs1]; intro c hc; exact absurd hc List.not_mem_nil,
         by intro cr hc; rw [hcr'] at hc; simp at hc⟩, phi_eq hs0 hs1 b3⟩
     | eatMdo =>
       have hst := readKind_mdo hrk
       rw [step_kind_mdo o pol m inp hcr hrk] at h
       have h0 : EatSt .markupDeclarationOpen (Phi m inp) m inp :=
-        ⟨hst, hcr, hi.peekNoRecon (Or.inr (Or.inl hst)), hi.good.eatOk (Or.inl hst), hi.notEof,
+        ⟨hst, hcr, hi.peekNoRecon (Or.inr (Or.inl hst)), hi.eatOk (Or.inl hst),
           by unfold Phi; rw [stash_eat hcr (Or.inl hst)]⟩
-      obtain ⟨c1, c2, c3, c4, c5⟩ := stepMdo_lines o pol m inp _ h0 m' i' h
-      exact ⟨⟨hg', hs', he', fun _ hx _ => c5 hx, fun _ => c1, by intro hx; rw [c1] at hx; simp at hx, c3,
+      obtain ⟨c1, c2, c3, c4, c5, c6⟩ := stepMdo_lines o pol m inp _ h0 m' i' h
+      exact ⟨⟨hs', fun _ => c6, fun _ hx _ => c5 hx, fun _ => c1, by intro hx; rw [c1] at hx; simp at hx, c3,
         by intro cr hc; rw [c2] at hc; simp at hc⟩, c4⟩
     | eatAdn =>
       have hst := readKind_adn hrk
       rw [step_kind_adn o pol m inp hcr hrk] at h
       have h0 : EatSt .afterDoctypeName (Phi m inp) m inp :=
-        ⟨hst, hcr, hi.peekNoRecon (Or.inr (Or.inr hst)), hi.good.eatOk (Or.inr hst), hi.notEof,
+        ⟨hst, hcr, hi.peekNoRecon (Or.inr (Or.inr hst)), hi.eatOk (Or.inr hst),
           by unfold Phi; rw [stash_eat hcr (Or.inr hst)]⟩
-      obtain ⟨c1, c2, c3, c4, c5, c6⟩ := stepAdn_lines o pol m inp _ h0 m' i' h
-      exact ⟨⟨hg', hs', he', fun hraw _ hx => c6 hraw hx, c1, c2, c4,
+      obtain ⟨c1, c2, c3, c4, c5, c6, c7⟩ := stepAdn_lines o pol m inp _ h0 m' i' h
+      exact ⟨⟨hs', c7, fun hraw _ hx => c6 hraw hx, c1, c2, c4,
         by intro cr hc; rw [c3] at hc; simp at hc⟩, c5⟩
-
 
 /-! ### whole runs -/
 
@@ -1557,23 +1568,375 @@ theorem Sim.line {m1 m2 : Mach} (h : Sim m1 m2) : m1.line = m2.line := by
   rcases h with h | ⟨_, a, h⟩ <;> subst h <;> simp
 
 theorem session_line (o : Opts) (pol : Pol) {m : Mach} {cs : List Str} {mf : Mach}
-    (hs : Session o pol m cs mf) (hi : LInv m) (hne : cs ≠ []) :
+    (hs : Session o pol m cs mf) (hi : LInv m) (hg : Good m) (hat : m.atEof = false) (hne : cs ≠ []) :
     mf.line = m.line + brk m.ignoreLf (stash m ++ cs.flatten) := by
-  rcases session_flatten o pol hs hi.good hi.notEof with ⟨h, _⟩ | ⟨mf', hr, hsim⟩
+  rcases session_flatten o pol hs hg hat with ⟨h, _⟩ | ⟨mf', hr, hsim⟩
   · exact absurd h hne
   · rw [← hsim.line]; exact runsTo_line o pol hr hi
 
 /-- a machine that has not read anything yet satisfies the invariant -/
-theorem linv_fresh (m : Mach) (h1 : m.tempBuf = []) (h2 : m.reconsume = false) (h3 : m.charRef = none)
-    (h4 : m.atEof = false) (h5 : m.ignoreLf = false) : LInv m where
-  good := ⟨fun _ _ => h1, fun _ => h2, fun _ => h5⟩
+theorem linv_fresh (m : Mach) (h1 : m.tempBuf = []) (h2 : m.reconsume = false) (h3 : m.charRef = none) :
+    LInv m where
   safe := Safe.of_none h3
-  notEof := h4
+  eatOk := fun _ _ => h1
   nr := fun _ _ _ => h1
   peekNoRecon := fun _ => h2
   ri := by intro hx; rw [h2] at hx; simp at hx
   stashOk := by rw [stash_nil_of h3 (fun _ => h1)]; intro c hc; exact absurd hc List.not_mem_nil
   cr := by intro cr hc; rw [h3] at hc; simp at hc
+
+/-! ### `Tokenizer::end` -/
+
+theorem transEof_line (o : Opts) (m : Mach) : (transEof o m).1.line = m.line := by
+  unfold transEof
+  split <;> simp [emitTempBuf, reconsumeTo]
+
+theorem eofLoop_line (o : Opts) (fuel : Nat) (m mf : Mach) (h : eofLoop o fuel m = .ok mf) : mf.line = m.line := by
+  induction fuel generalizing m with
+  | zero => simp [eofLoop] at h
+  | succ n ih =>
+    unfold eofLoop at h
+    have hl := transEof_line o m
+    cases ht : transEof o m with
+    | mk m1 sig =>
+      rw [ht] at h hl
+      simp only at hl
+      cases sig with
+      | cont => simp only at h; rw [ih m1 h, hl]
+      | done => simp only [Except.ok.injEq] at h; rw [← h, hl]
+      | panic e => simp at h
+
+theorem run_lines (o : Opts) (pol : Pol) (fuel : Nat) (m : Mach) (inp : Str) (m' : Mach) (i' : Str)
+    (h : run o pol fuel m inp = .done m' i') (hi : LInv m) : LInv m' ∧ Phi m' i' = Phi m inp := by
+  induction fuel generalizing m inp with
+  | zero => simp [run] at h
+  | succ n ih =>
+    unfold run at h
+    cases hs : step o pol m inp with
+    | cont m1 i1 =>
+      rw [hs] at h
+      simp only at h
+      obtain ⟨h1, h2⟩ := step_lines o pol m inp hi m1 i1 (by rw [hs]; rfl)
+      obtain ⟨h3, h4⟩ := ih m1 i1 h h1
+      exact ⟨h3, by rw [h4, h2]⟩
+    | suspend m1 i1 =>
+      rw [hs] at h
+      simp only [RunRes.done.injEq] at h
+      obtain ⟨e1, e2⟩ := h; subst e1 e2
+      exact step_lines o pol m inp hi m1 i1 (by rw [hs]; rfl)
+    | script m1 i1 => rw [hs] at h; simp at h
+    | indicator m1 i1 => rw [hs] at h; simp at h
+    | panic e => rw [hs] at h; simp at h
+
+theorem LInv.setAtEof {m : Mach} (hi : LInv m) (b : Bool) : LInv (m.setAtEof b) where
+  safe := ⟨fun cr h => by simpa using hi.safe.crState cr (by simpa using h),
+           fun cr h => hi.safe.crRegs cr (by simpa using h)⟩
+  eatOk := by
+    intro hs hil
+    have := hi.eatOk (by simpa using hs) (by simpa using hil)
+    simpa using this
+  nr := by simpa using hi.nr
+  peekNoRecon := by simpa using hi.peekNoRecon
+  ri := by simpa using hi.ri
+  stashOk := by rw [stash_congr (m := m) (by simp) (by simp) (by simp)]; exact hi.stashOk
+  cr := by
+    intro cr hcr
+    have := hi.cr cr (by simpa using hcr)
+    exact ⟨by simpa using this.1, by simpa using this.2.1, this.2.2⟩
+
+/-- one round of `end_of_file` of the character-reference tokenizer (the `once` of `crEof`) -/
+def crEofOnce (o : Opts) (m : Mach) (inp : Str) (cr : CharRefSt) : CRRes :=
+  match cr.state with
+  | .begin => .ok (m, inp, cr, .done [])
+  | .numeric _ =>
+    if !cr.seenDigit then unconsumeNumeric m inp cr
+    else finishNumericStatus o (emitErr m "EOF in numeric character reference") inp cr
+  | .numericSemicolon =>
+    finishNumericStatus o (emitErr m "EOF in numeric character reference") inp cr
+  | .named => finishNamed o m inp cr none
+  | .bogusName =>
+    match cr.nameBuf with
+    | none => .error "unconsume_name: unwrap on None"
+    | some nb => .ok (m, nb ++ inp, { cr with nameBuf := none }, .done [])
+  | .octothorpe =>
+    .ok (emitErr m "EOF after '#' in character reference", '#' :: inp, cr, .done [])
+
+theorem crEof_eq (o : Opts) (m : Mach) (inp : Str) (cr : CharRefSt) :
+    crEof o m inp cr =
+      (match crEofOnce o m inp cr with
+       | .error e => .error e
+       | .ok (m, inp, _, .done chars) => .ok (m, inp, chars)
+       | .ok (m, inp, _, .stuck) => .ok (m, inp, [])
+       | .ok (m, inp, cr, .progress) =>
+         match crEofOnce o m inp cr with
+         | .error e => .error e
+         | .ok (m, inp, _, .done chars) => .ok (m, inp, chars)
+         | .ok (m, inp, _, _) => .ok (m, inp, [])) := rfl
+
+/-- a round of `end_of_file` always finishes, leaves the line registers alone, and what it gives
+back to the (empty) queue holds no line break -/
+theorem crEofOnce_lines (o : Opts) (m : Mach) (cr : CharRefSt) (hil : m.ignoreLf = false) (hr : m.reconsume = false)
+    (hc : CRLines cr) (m1 : Mach) (i1 : Str) (cr1 : CharRefSt) (st : CRStatus)
+    (h : crEofOnce o m [] cr = .ok (m1, i1, cr1, st)) :
+    (∃ chars, st = .done chars) ∧
+    m1.line = m.line ∧ m1.ignoreLf = false ∧ m1.reconsume = false ∧ brk false i1 = 0 ∧
+    m1.state = m.state ∧ m1.tempBuf = m.tempBuf := by
+  have hplain : ∀ x ∈ cr.nameBuf.getD [], isBrk x = false := hc.plain
+  unfold crEofOnce at h
+  cases hst : cr.state with
+  | begin =>
+    simp only [hst, Except.ok.injEq, Prod.mk.injEq] at h
+    obtain ⟨e1, e2, _, e4⟩ := h; subst e1 e2
+    exact ⟨⟨_, e4.symm⟩, rfl, hil, hr, rfl, rfl, rfl⟩
+  | octothorpe =>
+    simp only [hst, Except.ok.injEq, Prod.mk.injEq] at h
+    obtain ⟨e1, e2, _, e4⟩ := h; subst e1 e2
+    exact ⟨⟨_, e4.symm⟩, by simp, by simp [hil], by simp [hr], by rw [brk_cons_plain _ _ _ (by decide)]; rfl,
+      by simp, by simp⟩
+  | numeric base =>
+    simp only [hst] at h
+    split at h
+    · unfold unconsumeNumeric at h
+      simp only [Except.ok.injEq, Prod.mk.injEq] at h
+      obtain ⟨e1, e2, _, e4⟩ := h; subst e1 e2
+      refine ⟨⟨_, e4.symm⟩, by simp, by simp [hil], by simp [hr], ?_, by simp, by simp⟩
+      apply brk_plain
+      intro x hx
+      simp only [List.append_nil, List.mem_cons] at hx
+      rcases hx with hx | hx
+      · subst hx; decide
+      · cases hh : cr.hexMarker with
+        | none => rw [hh] at hx; simp at hx
+        | some y =>
+          rw [hh] at hx
+          simp only [List.mem_cons, List.not_mem_nil, or_false] at hx
+          subst hx; exact hc.hex _ hh
+    · unfold finishNumericStatus at h
+      have hf := sameLines_finishNumeric o (emitErr m "EOF in numeric character reference") cr
+      have hwk := finishNumeric_weaker o (emitErr m "EOF in numeric character reference") cr
+      cases hfn : finishNumeric o (emitErr m "EOF in numeric character reference") cr with
+      | mk mx r =>
+        rw [hfn] at h hf hwk
+        cases r with
+        | error e => simp at h
+        | ok ch =>
+          simp only [Except.ok.injEq, Prod.mk.injEq] at h
+          obtain ⟨e1, e2, _, e4⟩ := h; subst e1 e2
+          exact ⟨⟨_, e4.symm⟩, by rw [hf.1]; simp, by rw [hf.2.1]; simp [hil], by rw [hf.2.2]; simp [hr], rfl,
+            by rw [hwk.1]; simp, by rw [hwk.2.1]; simp⟩
+  | numericSemicolon =>
+    simp only [hst] at h
+    unfold finishNumericStatus at h
+    have hf := sameLines_finishNumeric o (emitErr m "EOF in numeric character reference") cr
+    have hwk := finishNumeric_weaker o (emitErr m "EOF in numeric character reference") cr
+    cases hfn : finishNumeric o (emitErr m "EOF in numeric character reference") cr with
+    | mk mx r =>
+      rw [hfn] at h hf hwk
+      cases r with
+      | error e => simp at h
+      | ok ch =>
+        simp only [Except.ok.injEq, Prod.mk.injEq] at h
+        obtain ⟨e1, e2, _, e4⟩ := h; subst e1 e2
+        exact ⟨⟨_, e4.symm⟩, by rw [hf.1]; simp, by rw [hf.2.1]; simp [hil], by rw [hf.2.2]; simp [hr], rfl,
+          by rw [hwk.1]; simp, by rw [hwk.2.1]; simp⟩
+  | bogusName =>
+    simp only [hst] at h
+    cases hnb : cr.nameBuf with
+    | none => rw [hnb] at h; simp at h
+    | some nb =>
+      rw [hnb] at h
+      simp only [Except.ok.injEq, Prod.mk.injEq] at h
+      obtain ⟨e1, e2, _, e4⟩ := h; subst e1 e2
+      refine ⟨⟨_, e4.symm⟩, rfl, hil, hr, ?_, rfl, rfl⟩
+      apply brk_plain
+      simpa [hnb] using hplain
+  | named =>
+    simp only [hst] at h
+    unfold finishNamed at h
+    cases hnb : cr.nameBuf with
+    | none => rw [hnb] at h; simp at h
+    | some nb =>
+      have hpl : ∀ x ∈ nb, isBrk x = false := by simpa [hnb] using hplain
+      rw [hnb] at h
+      dsimp only at h
+      cases hm : cr.nameMatch with
+      | none =>
+        rw [hm] at h
+        simp only [Bool.false_eq_true, ↓reduceIte, Except.ok.injEq, Prod.mk.injEq] at h
+        obtain ⟨e1, e2, _, e4⟩ := h; subst e1 e2
+        exact ⟨⟨_, e4.symm⟩, rfl, hil, hr, by apply brk_plain; simpa using hpl, rfl, rfl⟩
+      | some mt =>
+        obtain ⟨c1, c2⟩ := mt
+        rw [hm] at h
+        dsimp only at h
+        cases hd : namedDecision m cr nb c1 c2 with
+        | error e => rw [hd] at h; simp at h
+        | ok r =>
+          rw [hd] at h
+          cases r with
+          | none =>
+            simp only [Except.ok.injEq, Prod.mk.injEq] at h
+            obtain ⟨e1, e2, _, e4⟩ := h; subst e1 e2
+            exact ⟨⟨_, e4.symm⟩, rfl, hil, hr, by apply brk_plain; simpa using hpl, rfl, rfl⟩
+          | some mc =>
+            obtain ⟨mx, cs⟩ := mc
+            simp only [Except.ok.injEq, Prod.mk.injEq] at h
+            obtain ⟨e1, e2, _, e4⟩ := h; subst e1 e2
+            obtain ⟨l1, l2, l3⟩ := namedDecision_lines m cr nb c1 c2 mx cs hd
+            have hwk := namedDecision_weaker m cr nb c1 c2 mx cs hd
+            refine ⟨⟨_, e4.symm⟩, l1, l2, by rw [l3, hr], ?_, hwk.1, hwk.2.1⟩
+            apply brk_plain
+            intro x hx
+            simp only [List.append_nil] at hx
+            exact hpl x (List.mem_of_mem_drop hx)
+
+theorem crEof_lines (o : Opts) (m : Mach) (cr : CharRefSt) (hil : m.ignoreLf = false) (hr : m.reconsume = false)
+    (hc : CRLines cr) (m1 : Mach) (i1 chars : Str) (h : crEof o m [] cr = .ok (m1, i1, chars)) :
+    m1.line = m.line ∧ m1.ignoreLf = false ∧ m1.reconsume = false ∧ brk false i1 = 0 ∧
+    m1.state = m.state ∧ m1.tempBuf = m.tempBuf := by
+  rw [crEof_eq] at h
+  cases hon : crEofOnce o m [] cr with
+  | error e => rw [hon] at h; simp at h
+  | ok v =>
+    obtain ⟨mx, ix, crx, st⟩ := v
+    obtain ⟨⟨cs, hcs⟩, rest⟩ := crEofOnce_lines o m cr hil hr hc mx ix crx st hon
+    subst hcs
+    rw [hon] at h
+    simp only [Except.ok.injEq, Prod.mk.injEq] at h
+    obtain ⟨e1, e2, _⟩ := h; subst e1 e2
+    exact rest
+
+theorem processCharRef_charRef (m : Mach) (chars : Str) : (processCharRef m chars).1.charRef = m.charRef := by
+  have h1 : ∀ (cs : Str) (m : Mach), (cs.foldl emitChar m).charRef = m.charRef := by
+    intro cs; induction cs with
+    | nil => intro m; rfl
+    | cons c cs ih => intro m; simp only [List.foldl_cons]; rw [ih]; simp
+  have h2 : ∀ (cs : Str) (m : Mach), (cs.foldl (fun m c => pushValue c m) m).charRef = m.charRef := by
+    intro cs; induction cs with
+    | nil => intro m; rfl
+    | cons c cs ih => intro m; simp only [List.foldl_cons]; rw [ih]; simp
+  unfold processCharRef
+  dsimp only
+  split
+  · exact h1 _ m
+  · exact h1 _ m
+  · exact h2 _ m
+  · rfl
+
+theorem phi_nil_eq_line {m : Mach} (hi : LInv m) : Phi m [] = m.line := by
+  unfold Phi
+  rw [List.append_nil, brk_plain _ _ hi.stashOk]; rfl
+
+/-- the part of `Tokenizer::end` after the character-reference hand-back -/
+theorem finish_tail_line (o : Opts) (pol : Pol) (m : Mach) (inp : Str) (mf : Mach) (hi : LInv m)
+    (hb : brk m.ignoreLf (stash m ++ inp) = 0)
+    (h : (match run o pol (fuelFor (m.setAtEof true) inp) (m.setAtEof true) inp with
+          | .done m inp => if !inp.isEmpty then .error "assertion failed: input.is_empty()" else eofLoop o 8 m
+          | .script _ _ | .indicator _ _ =>
+            .error "assertion failed: matches!(self.run(&input), TokenizerResult::Done)"
+          | .panic e => .error e
+          | .outOfFuel => .error "run out of fuel") = Except.ok mf) : mf.line = m.line := by
+  cases hrun : run o pol (fuelFor (m.setAtEof true) inp) (m.setAtEof true) inp with
+  | done m4 i4 =>
+    rw [hrun] at h
+    simp only at h
+    split at h
+    · simp at h
+    · rename_i hemp
+      have hi4 : i4 = [] := by simpa using hemp
+      subst hi4
+      obtain ⟨h1, h2⟩ := run_lines o pol _ _ _ m4 [] hrun (hi.setAtEof true)
+      rw [eofLoop_line o 8 m4 mf h, ← phi_nil_eq_line h1, h2]
+      unfold Phi
+      rw [stash_congr (m := m) (by simp) (by simp) (by simp)]
+      simp only [setAtEof_line, setAtEof_ignoreLf]
+      rw [hb]; rfl
+  | script _ _ => rw [hrun] at h; simp at h
+  | indicator _ _ => rw [hrun] at h; simp at h
+  | panic e => rw [hrun] at h; simp at h
+  | outOfFuel => rw [hrun] at h; simp at h
+
+/-- **`Tokenizer::end` never moves the line**: whatever the look-ahead machinery still holds at the
+end of the input contains no line break, so everything `end()` emits — the EOF token included —
+carries the line reached after the last feed -/
+theorem finish_line (o : Opts) (pol : Pol) (m mf : Mach) (hi : LInv m) (h : finish o pol m = .ok mf) :
+    mf.line = m.line := by
+  unfold finish at h
+  cases hcr : m.charRef with
+  | none =>
+    simp only [hcr] at h
+    refine finish_tail_line o pol m [] mf hi ?_ h
+    rw [List.append_nil]; exact brk_plain _ _ hi.stashOk
+  | some cr =>
+    obtain ⟨c1, c2, c3⟩ := hi.cr cr hcr
+    have hstate := hi.safe.crState cr hcr
+    simp only [hcr] at h
+    cases hce : crEof o m [] cr with
+    | error e => rw [hce] at h; simp at h
+    | ok v =>
+      obtain ⟨m1, i1, chars⟩ := v
+      obtain ⟨l1, l2, l3, l4, l5, l6⟩ := crEof_lines o m cr c1 c2 c3 m1 i1 chars hce
+      rw [hce] at h
+      simp only at h
+      have hp := processCharRef_fields (m1.setCharRef none) chars
+      have hpl := processCharRef_line (m1.setCharRef none) chars
+      cases hpc : processCharRef (m1.setCharRef none) chars with
+      | mk m2 sig =>
+        rw [hpc] at h hp hpl
+        simp only at hp hpl
+        cases sig with
+        | cont =>
+          simp only at h
+          have hne : m2.state ≠ .markupDeclarationOpen ∧ m2.state ≠ .afterDoctypeName ∧ m2.state ≠ .beforeAttributeValue := by
+            rw [hp.1]; simp only [setCharRef_state]; rw [l5]
+            rcases hstate with hx | hx | ⟨k, hx⟩ <;> rw [hx] <;> simp
+          have hcr2 : m2.charRef = none := by
+            have := (processCharRef_charRef (m1.setCharRef none) chars)
+            rw [hpc] at this; simpa using this
+          have hst2 : stash m2 = [] := stash_plain hcr2 hne.1 hne.2.1
+          have hrec2 : m2.reconsume = false := by rw [hp.2.2.2.1]; simpa using l3
+          have hi2 : LInv m2 := by
+            refine ⟨Safe.of_none hcr2, ?_, ?_, fun _ => hrec2, by intro hx; rw [hrec2] at hx; simp at hx,
+              by rw [hst2]; intro c hc; exact absurd hc List.not_mem_nil,
+              by intro cr' hc'; rw [hcr2] at hc'; simp at hc'⟩
+            · intro hx; rcases hx with hx | hx
+              · exact absurd hx hne.1
+              · exact absurd hx hne.2.1
+            · intro hraw h1 h2
+              rw [hp.2.1]; simp only [setCharRef_tempBuf]; rw [l6]
+              apply hi.nr
+              · rw [hp.1] at hraw; simp only [setCharRef_state] at hraw; rw [l5] at hraw; exact hraw
+              · rcases hstate with hx | hx | ⟨k, hx⟩ <;> rw [hx] <;> simp
+              · rcases hstate with hx | hx | ⟨k, hx⟩ <;> rw [hx] <;> simp
+          have := finish_tail_line o pol m2 i1 mf hi2 (by
+            rw [hst2, hp.2.2.1]; simp only [setCharRef_ignoreLf, List.nil_append]; rw [l2, l4]) h
+          rw [this, hpl]; simpa using l1
+        | script => simp at h
+        | indicator => simp at h
+        | panic e => simp at h
+
+theorem LInv.of_sim {m1 m2 : Mach} (hi : LInv m1) (h : Sim m1 m2) : LInv m2 := by
+  rcases h with h | ⟨hd, a, h⟩
+  · subst h; exact hi
+  · subst h
+    refine ⟨⟨fun cr hc => by simpa using hi.safe.crState cr (by simpa using hc),
+             fun cr hc => hi.safe.crRegs cr (by simpa using hc)⟩, ?_, by simpa using hi.nr,
+            by simpa using hi.peekNoRecon, ?_, ?_, ?_⟩
+    · intro hs hil
+      have := hi.eatOk (by simpa using hs) (by simpa using hil)
+      simpa using this
+    · intro hx; simp only [setCurrentChar_reconsume] at hx; rw [hd.1] at hx; simp at hx
+    · rw [stash_congr (m := m1) (by simp) (by simp) (by simp)]; exact hi.stashOk
+    · intro cr hc
+      have := hi.cr cr (by simpa using hc)
+      exact ⟨by simpa using this.1, by simpa using this.2.1, this.2.2⟩
+
+/-- after a session (any chunking) the invariant holds and the line is start + breaks fed -/
+theorem session_linv (o : Opts) (pol : Pol) {m : Mach} {cs : List Str} {mf : Mach}
+    (hs : Session o pol m cs mf) (hi : LInv m) (hg : Good m) (hat : m.atEof = false) : LInv mf := by
+  rcases session_flatten o pol hs hg hat with ⟨_, h⟩ | ⟨mf', hr, hsim⟩
+  · rw [h]; exact hi
+  · exact (runsTo_lines o pol hr hi).1.of_sim hsim
 
 /-! ### `brk` is the number of LF after the standard's newline normalisation -/
 
